@@ -226,6 +226,23 @@ def print_assumptions(props_rel, log):
     return rc == 0, closed, sorted(set(axioms))
 
 
+def coqchk(props_rel, log):
+    """coqchk -silent -o on the property module: independent re-check of the .vo files of its whole dependency cone."""
+    mod = "CN." + props_rel[:-2].replace("/", ".")
+    t = time.time()
+    rc, out = sh(["coqchk", "-silent", "-o", "-Q", "theories", "CN", mod], cwd=COQ, timeout=3000)
+    log.append("$ coqchk -silent -o -Q theories CN %s rc=%d %.1fs\n%s" % (mod, rc, time.time() - t, out[-3000:]))
+    axioms = []
+    m = re.search(r"\* Axioms:(.*?)\n\s*\n\* Constants/Inductives relying on type-in-type:(.*?)\n\s*\n\* Constants/Inductives relying on unsafe \(co\)fixpoints:(.*?)\n\s*\n\* Inductives whose positivity is assumed:(.*?)(?:\n\s*\n|\Z)", out, re.S)
+    clean = False
+    if m:
+        ax = m.group(1).strip()
+        if ax != "<none>":
+            axioms = [x.strip() for x in ax.split("\n") if x.strip()]
+        clean = all(m.group(i).strip() == "<none>" for i in (2, 3, 4))
+    return dict(ok=(rc == 0 and m is not None and clean), axioms=axioms, s=round(time.time() - t, 1), tail=out[-1500:])
+
+
 def coq_eval_shard(path):
     t = time.time()
     d = os.path.dirname(path)
@@ -341,6 +358,16 @@ def run_check(pid, tier="quick", seed=None, replay=None):
         problems.append(dict(layer="L1", what="Print Assumptions lists axioms outside the declared base: " + ", ".join(bad_ax)))
     if pa_ok and closed + len(axioms) == 0:
         problems.append(dict(layer="L1", what="no Print Assumptions output under the property theorems"))
+    # thorough tier: the compiled theorem cone is re-checked by Coq's independent checker, which also lists the axioms of
+    # everything loaded
+    chk = None
+    if tier == "thorough" and not ci["missing"] and os.environ.get("VERIF_NO_COQCHK") != "1":
+        chk = coqchk(spec["props_file"], log)
+        if not chk["ok"]:
+            problems.append(dict(layer="L1", what="coqchk does not accept the compiled cone of %s" % spec["props_file"], detail=chk["tail"]))
+        bad = [a for a in chk["axioms"] if a.split(".")[-1] not in spec["allowed_axioms"]]
+        if bad:
+            problems.append(dict(layer="L1", what="coqchk lists axioms outside the declared base: " + ", ".join(bad)))
 
     # ---- L2/L3: harnesses
     results, evals, shard_reports = [], 0, []
@@ -486,6 +513,8 @@ def run_check(pid, tier="quick", seed=None, replay=None):
         model_impl_disagreements=mism_total, shards=shard_reports, known_findings_hit=known_hit,
         problems=[dict(layer=p["layer"], what=p["what"]) for p in problems],
     )
+    if chk is not None:
+        cov["coqchk"] = dict(cmd="coqchk -silent -o -Q theories CN CN.%s" % spec["props_file"][:-2].replace("/", "."), accepted=chk["ok"], axioms=chk["axioms"], s=chk["s"])
     cov.update(extra)
     cov.update(hook_cov)
     ev = dict(property_id=pid, tier=tier, seed=int(seed), level="proof", coverage=cov,
